@@ -789,3 +789,15 @@ package gomavlib
 //@   ensures  res == conf.Address
 //@   modifies nothing
 
+
+// ---------------------------------------------------------------- serial endpoint
+//@ func (*endpointSerial).initialize
+//@   requires e != nil
+//@   ensures  [device-must-open] logLen() >= 1 && logCallee(0, "call:func-value")
+//@   ensures  [probe-is-released] err == nil ==> logLen() >= 2 && e.ctx != nil
+//@   modifies e.ctx, e.ctxCancel, ghost:log
+
+//@ func (*endpointSerial).connect returns (conn, err)
+//@   requires e != nil
+//@   ensures  [opens-the-configured-device] logLen() == 1 && logCallee(0, "call:func-value") && logArgInt(0, 1) == int64(e.conf.Baud)
+//@   modifies ghost:log
